@@ -463,7 +463,7 @@ func (c *Ctx) verdict(start time.Time, evidencePath string) int {
 		if k, ok := isKnown(f); ok {
 			if !printedKnown[k.Key] {
 				printedKnown[k.Key] = true
-				fmt.Printf("KNOWN-FINDING: property=%s %s\n", c.P.ID, strings.TrimSpace(strings.TrimPrefix(k.Text, "finding:")))
+				fmt.Printf("KNOWN-FINDING: %s\n", strings.TrimSpace(strings.TrimPrefix(k.Text, "finding:")))
 			}
 			continue
 		}
